@@ -10,6 +10,14 @@ old = {c["property_id"]: c for c in M["checks"]}
 ALL = [json.loads(l)["id"] for l in open(os.path.join(ROOT, "properties.jsonl"))]
 
 CONN_TEXT = {
+    "C06": "progress / no lost wake-up: Lean theorems on the waker bookkeeping of the connection model (who is parked, who wakes whom); correspondence of the real connection with the model INCLUDING every wake-up fired per operation; two real endpoints under a strict executor (a task runs only when woken) with a progress oracle",
+    "C07": "everything resolves at the end: Lean theorems on the model's end-of-connection paths (recv_eof / handle_error / GOAWAY / drop); correspondence incl. wake-ups; two real endpoints ended in every way under a strict executor with an everything-resolves oracle",
+    "C08": "no panic / wedge / busy loop: Lean theorems that the model's recorded assert/unwrap sites do not fire and that its fuelled loops have enough fuel (bounded work); correspondence of the real connection with the model on generated AND mutated (hostile) histories, panics of the real code caught per operation; self-wake-without-progress rule",
+    "C09": "violations detected and contained, legal traffic tolerated: Lean theorems on the model's frame dispatch (which frames are connection errors, stream errors, ignored); correspondence; the three-way verdict monitor (Spec/Verdict.lean) on a catalogue of injected frames, one entry per RFC rule, after random legal prefixes",
+    "C13": "malformed messages: Lean theorems on the model's header-block loader and message conversion against the RFC 9113 section 8 reference predicate (Spec/Http.lean); correspondence; delivered/generated-message monitors on real traces with malformed heads and trailers injected",
+    "C15": "GOAWAY / shutdown: Lean theorems on the GoAway sub-machine and the stream layer's GOAWAY handling in the model; correspondence; GOAWAY monitors (monotone last id, nothing new after, streams above fail) on the real wire trace",
+    "C17": "resets: Lean theorems on the model's reset paths (exactly one RST_STREAM, queue discarded, capacity reclaimed; peer errors surface with code/initiator); correspondence; reset monitors on the real wire trace",
+    "C19": "finished streams forgotten, idle client closes: Lean theorems on store/queue consistency and release in the model; correspondence incl. the whole store digest; bookkeeping invariants on the real state after every operation (Spec/StateInv.lean C19), idle-close rule at quiescence",
     "C14": "SETTINGS/PING acknowledgements: Lean theorems over EVERY history of the connection model (instrumented poll with an erasure theorem): acknowledged SETTINGS are a prefix of the received ones, at most one owed, PING payloads answered in order with their own payload, values applied exactly at the ACK, local settings enforced at the peer's ACK, unsolicited SETTINGS ACK = PROTOCOL_ERROR; correspondence of the real connection with the model; ack monitors (Spec/Wire.lean C14) on the real wire trace",
     "C05": "concurrent-stream limits: Lean theorems on the counters' guards (and counting invariants of the connection model where present in H2V/Props/C05.lean); correspondence of the real connection with the model incl. all counters; monitors: concurrency rule on the real wire trace (Spec/Wire.lean C05) and counter-vs-store invariants on the real state after every operation (Spec/StateInv.lean)",
     "C16": "send-capacity API: Lean theorems on capacity assignment arithmetic (and send-ledger invariants of the connection model where present); correspondence incl. capacity answers and wake-ups; assigned-capacity ledger checked on the real state after every operation (Spec/StateInv.lean C16)",
